@@ -449,4 +449,30 @@ CHECKS["C14"] = dict(
     thorough=dict(workers=16, cases=3000, maxsize=60),
 )
 
+CHECKS["C09"] = dict(
+    harness="C09_tls", sources=["props/C09_tls.cc", "shim/shim.c", "pki/pki.cc"], variant="asan",
+    level="exploration", engine="rapidcheck cells of the policy x credential matrix + in-process PKI factory (libcrypto), oracle on generation metadata",
+    technique="combinatorial property testing: generated (client policy, server policy, accept-time override, "
+              "credentials, trust store, CRL set, delivery form) cells; fail-closed oracle evaluated on the "
+              "generated certificates' metadata, plus a not-fail-always oracle for definitely valid cells",
+    level_text="Per cell: tls.auth / tls.check_time / tls.check_crl / tls.verify_peer_name each unset, true or false "
+               "and tls.peer_names unset, matching or non-matching on the connecting socket, on the server socket "
+               "and (a third of the cells) in xcm_accept_a; each side presents one of: valid leaf, leaf via an "
+               "intermediate (bundle), leaf under an untrusted root, expired, not yet valid, revoked leaf, leaf "
+               "under a revoked intermediate, serverAuth-only, clientAuth-only, leaf under an expired "
+               "intermediate; trust store {A}, {B}, {A,B} or {intermediate}; CRLs complete, missing for the "
+               "intermediate, expired, or with zero revocations; by file or by value; tls, btls, utls->tls. "
+               "Both sides run finish/send/receive to completion. Sampled (a quarter of the cells are steered "
+               "into the definitely-valid class).",
+    level_note="Only facts generated by the harness are judged (no name constraints, policies, path lengths). "
+               "TLS 1.3 lets a client become usable before the server has judged it: the oracle is per side.",
+    rule=("Non-trivial = at least one side's policy is definitely not met, or an accept-time override changed the "
+          "effective policy. Inconsistent combinations (CRL checking or name verification without "
+          "authentication, names without verification, name verification on an accepted socket without names) "
+          "must be refused with EINVAL at creation."),
+    assumptions=["tls.client is left at its default (the connecting side is the TLS client)"],
+    quick=dict(workers=16, cases=150, maxsize=40),
+    thorough=dict(workers=16, cases=8000, maxsize=40),
+)
+
 NOT_APPLICABLE = []
